@@ -27,6 +27,8 @@ pub struct ElfSpec {
     /// .text starts this many bytes into its page (0: page aligned): the first page of the section
     /// then crosses a file-page boundary
     pub text_skew: usize,
+    /// DT_SONAME placed after DT_STRTAB / DT_STRSZ in the dynamic section (the order is free)
+    pub soname_last: bool,
 }
 
 impl ElfSpec {
@@ -46,6 +48,7 @@ impl ElfSpec {
             data_pages: 1,
             empty_first_note: rng.chance(1, 4),
             text_skew: *rng.pick(&[0usize, 0, 0, 0, 0x40, 0x34, 0x800, 0xfff, 0xff0, 1]),
+            soname_last: rng.chance(1, 3),
         }
     }
 }
@@ -230,11 +233,14 @@ pub fn build(spec: &ElfSpec) -> Built {
     // ---- dynamic
     o.pad_to(dyn_off);
     let mut dyns: Vec<(u64, u64)> = vec![(1, 1)]; // DT_NEEDED libdep
-    if spec.soname.is_some() {
+    if spec.soname.is_some() && !spec.soname_last {
         dyns.push((14, soname_off as u64)); // DT_SONAME
     }
     dyns.push((5, dynstr_off as u64 + bias)); // DT_STRTAB
     dyns.push((10, dynstr.len() as u64)); // DT_STRSZ
+    if spec.soname.is_some() && spec.soname_last {
+        dyns.push((14, soname_off as u64)); // DT_SONAME
+    }
     dyns.push((21, 0)); // DT_DEBUG
     dyns.push((0, 0));
     assert_eq!(dyns.len(), ndyn);
